@@ -3,40 +3,46 @@ from __future__ import annotations
 
 import ast
 
-from ..loops import dotted
+from ..loops import dotted, find_env_loop
 from ..nf import NF, Scope, Poly, parse_expr
-from ..repo import Repo, loc, short, AnalysisError, positional_params, param_names
+from ..repo import Repo, loc, short, AnalysisError, positional_params, param_names, bind_call
+from ..sem import OrderModel, Unknown, eval_order_formula, summarise_paths, active_summaries, same_ingredients, result_position, split_conditional_assignments
 from ..sympath import enumerate_paths, PathEval
 
 EXPLANATION = (
     "Formula identities and bookkeeping structure of CMA-ES and CEM. Weights: w / sum(w) with w = log(mu + 1/2) - log1p(arange(floor(mu))) "
-    "(normalisation decided; positivity / monotonicity are properties of log and are not decided). Incumbent: the three best_* fields are "
-    "written only in set_evaluation_feedback, together, on the path `fitness_k <= best_fitness` (per-path evaluation), with the parameters of "
-    "the same index k that was evaluated; maximisation negates the feedback once and train_cmaes un-negates the reported value. Mean "
-    "recombination, last_mean and the step-size cap exp(min(0.6, .))^2 are polynomial identities of update_search_distribution. flat_params / "
-    "set_params walk nnx.state(net, nnx.Param) leaves in the same order with consecutive slices of prod(leaf.shape). CEM: elites = top-k by "
-    "fitness, convex update (shared with C10)."
+    "(normalisation decided; positivity / monotonicity are properties of log and are not decided). Incumbent: set_evaluation_feedback only "
+    "compares its quantities, so it is compared with the documented table in a finite order model (worlds over {sum(feedback), best} and the "
+    "maximise flag): in every world the enabled path stores the sign-adjusted fitness at index it % population, advances it by one and "
+    "replaces the incumbent as a whole (fitness, iteration, parameters of that same index) when the candidate is better, keeps it as a whole "
+    "when it is worse. train_cmaes evaluates the candidate it wrote into the policy and reports the un-negated best fitness. Mean "
+    "recombination, last_mean and the step-size cap are normal-form identities of update_search_distribution evaluated per path. flat_params / "
+    "set_params are read as dataflow terms: both walk the leaves of nnx.state(net, nnx.Param) in pytree order, one concatenating the raveled "
+    "leaves, the other cutting consecutive slices of prod(leaf.shape) (loop-carried offset evaluated symbolically). CEM: elites = top-k by "
+    "fitness, convex update (shared with C10); optimize_cem binds bounds and evaluated samples by signature and reaching definitions."
 )
-TRUSTED = ["jax.tree_util.tree_leaves / tree_unflatten use one deterministic leaf order", "jnp.argsort ascending; jax.lax.top_k returns the k largest"]
+TRUSTED = ["jax.tree_util.tree_leaves / tree_flatten / tree_unflatten use one deterministic leaf order", "jnp.argsort ascending; jax.lax.top_k returns the k largest",
+           "entries of the population are distinct objects (samples[i] and samples[j] differ for i != j)"]
 RULES = {
     "R1-weights": "weights == w / sum(w), w == log(mu + 0.5) - log1p(arange(int(mu))), mu == n_samples_per_update / 2; config stores int(mu)",
-    "R2-incumbent": "best_fitness / best_fitness_it / best_params are written only in set_evaluation_feedback, together, iff fitness_k <= best_fitness, from population.samples[k] with the k of population.fitness[k]; sign handling for maximisation",
+    "R2-incumbent": "order-world table of set_evaluation_feedback: fitness[k] := +-sum(feedback), it += 1, incumbent (fitness, iteration, samples[k]) replaced as a whole iff the candidate is better (ties free), k = it % population; "
+                    "best_* written nowhere else; train_cmaes sets the candidate it evaluates and un-negates the reported value",
     "R3-mean": "mean' == sum(weights[:,None] * samples[argsort(fitness)[:mu]], axis=0); last_mean' == old mean",
     "R4-step-size": "var' == var * exp(min(0.6, log_step_size_update))^2",
     "R5-flat-set": "flat_params and set_params use nnx.state(net, nnx.Param) leaves in tree_leaves order; consecutive slices of prod(leaf.shape) reshaped to leaf.shape; nnx.update(net, state)",
-    "R6-cem": "elites == take(samples, top_k(fitness, n_elite).indices, axis=0); optimize_cem passes bounds (lb, ub) in order and stops on max(var) <= epsilon",
+    "R6-cem": "elites == take(samples, top_k(fitness, n_elite).indices, axis=0); optimize_cem passes bounds (lb, ub) in order and updates from the fitness of the very samples it ranks",
 }
 
 CM = "rl_blox.algorithm.cmaes."
+BEST_FIELDS = ("best_fitness", "best_fitness_it", "best_params")
 
 
 def _env(fn):
     return {p: Poly.atom(p, {p}, {p}) for p in param_names(fn)}
 
 
-def run(ck, repo: Repo, tier: str):
-    nf = NF(repo, inline_depth=2)
-    # ---- R1 weights ----------------------------------------------------------------------------------------
+# ---- R1 ------------------------------------------------------------------------------------------------------------------------------------
+def r1_weights(ck, repo, nf):
     m = repo.method(CM + "CMAESConfig", "create", inherited=False)
     ck.need(m is not None, "CMAESConfig.create not found")
     fn = m[1]
@@ -44,200 +50,593 @@ def run(ck, repo: Repo, tier: str):
     fn._module = mi
     cfg = nf.cfg_of(fn)
     env = {p: Poly.atom(p, {p}, {p}) for p in positional_params(fn)}
-    sc = Scope(cfg, mi, env, CM + "CMAESConfig.create")
     ret = [n for n in cfg.nodes if n.kind == "stmt" and isinstance(n.ast, ast.Return)]
     ck.need(len(ret) == 1 and isinstance(ret[0].ast.value, ast.Call), "CMAESConfig.create: return cls(...) not found")
     kw = {k.arg: k.value for k in ret[0].ast.value.keywords}
+    ck.need("weights" in kw and "mu" in kw, "CMAESConfig.create: weights / mu are not passed by keyword (unrecognised form)")
     # n_samples_per_update may be defaulted: evaluate on the path where it is given
     paths = enumerate_paths(cfg, cfg.entry, {ret[0].id})
     wseen = set()
     for p in paths:
         pe = PathEval(nf, cfg, mi, CM + "CMAESConfig.create", env).run(p[:-1])
-        w = pe.ev(kw["weights"]).canon()
-        mu = pe.ev(kw["mu"]).canon()
-        wseen.add((w, mu))
+        wseen.add((pe.ev(kw["weights"]), pe.ev(kw["mu"])))
     sc0 = Scope(None, mi, env, "spec")
-    okw = True
+    where = loc(mi, fn)
+    site = CM + "CMAESConfig.create"
     for w, mu in wseen:
+        nums, mus = [], []
         for nspu in ("n_samples_per_update", "(4 + int(3 * math.log(n_params)))"):
-            W = f"(math.log({nspu} / 2.0 + 0.5) - jnp.log1p(jnp.arange(int({nspu} / 2.0))))"
-            want = nf.poly(parse_expr(f"{W} / jnp.sum({W})"), sc0, None).canon()
-            wantmu = nf.poly(parse_expr(f"int({nspu} / 2.0)"), sc0, None).canon()
-            if w == want and mu == wantmu:
-                break
+            nums.append(nf.poly(parse_expr(f"(math.log({nspu} / 2.0 + 0.5) - jnp.log1p(jnp.arange(int({nspu} / 2.0))))"), sc0, None))
+            mus.append(nf.poly(parse_expr(f"int({nspu} / 2.0)"), sc0, None))
+        # w == N / g: the atom that divides every monomial
+        common = None
+        for mono in w.terms:
+            neg = {a for a, k in mono if k == -1}
+            common = neg if common is None else common & neg
+        common = sorted(common or [])
+        if len(common) == 1:
+            g = common[0]
+            N = w * Poly.atom(g)
+            wg = nf.poly(parse_expr("jnp.sum(NUM)"), Scope(None, mi, {"NUM": N}, "spec"), None)
+            want_g = wg.single_atom() or f"({wg.canon()})"
+            if g == want_g:
+                ck.ob("R1-weights", site, "sum-to-one", True, "weights = N / sum(N)", "", where)
+            elif (nf.meta.get(g, {}).get("args") and nf.meta[g]["args"][0] == N) or same_ingredients(Poly.atom(g), wg, ("max", "min", "mean", "prod", "len")):
+                ck.ob("R1-weights", site, "sum-to-one", False, f"weights = N / {g[:60]}", "the weights must be normalised by their own sum (they do not sum to one)", where)
+            else:
+                raise AnalysisError(f"{site}: weights `{w.canon()[:100]}` are divided by `{g[:60]}` (unrecognised form)")
+        elif len(common) == 0 and any(same_ingredients(w, n_) for n_ in nums):
+            N = w
+            ck.ob("R1-weights", site, "sum-to-one", False, f"weights = {w.canon()[:100]}", "the weights are not normalised by their sum", where)
         else:
-            okw = False
-            ck.ob("R1-weights", CM + "CMAESConfig.create", "weights-form", False, f"weights = {w[:150]}; mu = {mu}", "weights must be the log-rank weights normalised by their sum, mu = int(population / 2)", loc(mi, fn))
-    if okw:
-        ck.ob("R1-weights", CM + "CMAESConfig.create", "weights-form", True, f"{len(wseen)} path form(s) == (log(mu+1/2) - log1p(arange(int(mu)))) / sum(.)", "", loc(mi, fn))
+            raise AnalysisError(f"{site}: weights `{w.canon()[:100]}` (unrecognised form)")
+        okn = any(N == n_ and mu == m_ for n_, m_ in zip(nums, mus))
+        if not okn and not (any(same_ingredients(N, n_) for n_ in nums) and any(same_ingredients(mu, m_) for m_ in mus)):
+            raise AnalysisError(f"{site}: unnormalised weights `{N.canon()[:100]}`, mu `{mu.canon()[:40]}` (unrecognised form)")
+        ck.ob("R1-weights", site, "log-rank-form", okn, f"N = {N.canon()[:120]}; mu = {mu.canon()}", "" if okn else "the unnormalised weights must be log(mu + 1/2) - log1p(arange(int(mu))) with mu = population / 2 (positive, decreasing), mu stored as int", where)
 
-    # ---- R2 incumbent ------------------------------------------------------------------------------------------
+
+# ---- R2 ------------------------------------------------------------------------------------------------------------------------------------
+def r2_feedback_table(ck, repo, nf):
     q = CM + "set_evaluation_feedback"
-    fn = repo.func(q)
+    fn = split_conditional_assignments(repo.func(q))
     mi = fn._module
     cfg = nf.cfg_of(fn)
+    ck._keep = getattr(ck, "_keep", []) + [fn]      # the CFG cache is keyed by id(fn)
+    params = param_names(fn)
+    ck.need(len(params) >= 4, f"{q}: signature changed (anchor vanished)")
+    CONF, ST, POP, FB = params[:4]
     env = _env(fn)
-    bests = ["state.best_fitness", "state.best_fitness_it", "state.best_params"]
-    old = {b: Poly.atom("old." + b) for b in bests}
-    old["state.it"] = Poly.atom("old.state.it")
-    paths = enumerate_paths(cfg, cfg.entry, {cfg.exit})
-    kinds = set()
-    for p in paths:
-        pe = PathEval(nf, cfg, mi, q, env)
-        pe.store = dict(old)
-        pe.run(p)
-        conds = {" ".join(ast.unparse(cfg.nodes[n].ast.test).split()): lab for n, lab in p if cfg.nodes[n].kind == "test"}
-        mx = conds.get("config.maximize")
-        inc = next((lab for t, lab in conds.items() if "best_fitness" in t), None)
-        ck.need(mx is not None and inc is not None, f"{q}: branch structure changed: {conds}")
-        cmp_txt = next(t for t in conds if "best_fitness" in t)
-        k = "mod(old.state.it, config.n_samples_per_update)"
-        fk = ("-" if mx else "") + "sum(feedback)"
-        fk = nf.poly(parse_expr(("-" if mx else "") + "float(jnp.sum(feedback))"), Scope(None, mi, env, q), None).canon()
-        label = f"{'max' if mx else 'min'}/{'improve' if inc else 'keep'}"
-        kinds.add(label)
-        where = loc(mi, fn)
-        got = {b: pe.store[b].canon() for b in bests}
-        if inc:
-            want = {bests[0]: fk, bests[1]: "old.state.it", bests[2]: f"population.samples[{k}]"}
-        else:
-            want = {b: old[b].canon() for b in bests}
-        ok = got == want
-        ck.ob("R2-incumbent", q, f"path:{label}", ok, f"{got}", "" if ok else f"expected {want}: the incumbent must be replaced as a whole by the evaluated candidate k (fitness, iteration, parameters) or kept as a whole", where)
-        pf = pe.store.get(f"population.fitness[{k}]")
-        ok = pf is not None and pf.canon() == fk
-        ck.ob("R2-incumbent", q, f"path:{label}:records-fitness", ok, f"population.fitness[k] = {pf.canon() if pf is not None else None}", "" if ok else "the (sign-adjusted) fitness must be stored at the evaluated index k = it % population", where)
-        it = pe.store.get("state.it")
-        ok = it is not None and it == old["state.it"] + Poly.const(1)
-        ck.ob("R2-incumbent", q, f"path:{label}:it+1", ok, f"state.it = {it.canon() if it is not None else None}", "" if ok else "the evaluation counter advances by one per feedback", where)
-    cmp_node = next(n for n in cfg.nodes if n.kind == "test" and "best_fitness" in ast.unparse(n.ast.test))
-    t = cmp_node.ast.test
-    ok = isinstance(t, ast.Compare) and isinstance(t.ops[0], (ast.LtE, ast.Lt)) and dotted(t.left) == "fitness_k" and dotted(t.comparators[0]) == "state.best_fitness"
-    ck.ob("R2-incumbent", q, "orientation", ok, f"if {ast.unparse(t)}", "" if ok else "the incumbent is replaced when the new (minimised) fitness is not worse: fitness_k <= best_fitness", loc(mi, t))
-    ck.ob("R2-incumbent", q, "paths", kinds == {"max/improve", "max/keep", "min/improve", "min/keep"}, f"{sorted(kinds)}", "" if len(kinds) == 4 else "expected the four maximise x improve paths", loc(mi, fn))
+    old = {f"{ST}.{b}": Poly.atom(f"old.{ST}.{b}") for b in BEST_FIELDS + ("it",)}
+    spec = PathEval(nf, cfg, mi, q, env)
+    spec.store = dict(old)
+    F = spec.ev(parse_expr(f"float(jnp.sum({FB}))"))
+    MX = spec.ev(parse_expr(f"{CONF}.maximize"))
+    K = spec.ev(parse_expr(f"{ST}.it % {CONF}.n_samples_per_update"))
+    CAND = spec.ev(parse_expr(f"{POP}.samples[{ST}.it % {CONF}.n_samples_per_update]"))
+    BEST, IT = old[f"{ST}.best_fitness"], old[f"{ST}.it"]
+    model = OrderModel()
+    model.cluster([F, BEST])
+    model.cluster([-F, BEST])
+    model.cluster([MX, Poly.const(0)])
+    for sign_, ci in ((F, 0), (-F, 1)):
+        mn = spec.nf.poly(parse_expr("min(A, B)"), Scope(None, mi, {"A": sign_, "B": BEST}, q), None)
+        if mn.single_atom():
+            model.derive(mn.single_atom(), "min", ci, 0, 1)
+    sums = summarise_paths(nf, cfg, mi, q, env, old)
+    ck.floor("feedback-paths", len(sums), 2)
+    where = loc(mi, fn)
+    viol, checked, kinds = {}, set(), set()
+    n_worlds = 0
+    for w in model.worlds():
+        n_worlds += 1
+        try:
+            act = active_summaries(model, w, sums)
+            mx = model.sign(w, MX) != 0
+        except Unknown as u:
+            raise AnalysisError(f"{q}: a branch compares `{str(u)[:100]}`, which is outside the order model of the documented table (unrecognised form)")
+        if len(act) != 1:
+            raise AnalysisError(f"{q}: {len(act)} paths enabled in the world [{model.describe(w)}] (unrecognised form)")
+        sm = act[0]
+        fk = -F if mx else F
+        rel = model.sign(w, fk - BEST)
+        kinds.add(("max" if mx else "min", rel))
+        st = sm.pe.store
+        got = {b: st.get(f"{ST}.{b}") for b in BEST_FIELDS}
+        improved = {"best_fitness": fk, "best_fitness_it": IT, "best_params": CAND}
+        kept = {b: old[f"{ST}.{b}"] for b in BEST_FIELDS}
+
+        def agrees(tbl):
+            return all(got[b] is not None and model.resolve(w, got[b]) == model.resolve(w, tbl[b]) for b in BEST_FIELDS)
+        ok = (agrees(improved) if rel < 0 else agrees(kept) if rel > 0 else (agrees(improved) or agrees(kept)))
+        checked.add("incumbent")
+        if not ok:
+            for b in BEST_FIELDS:
+                if got[b] is None or not (same_ingredients(got[b], improved[b], ("old",)) or same_ingredients(got[b], kept[b])):
+                    raise AnalysisError(f"{q}: {b} := `{got[b].canon()[:80] if got[b] is not None else None}` (unrecognised form)")
+            want_txt = "replaced as a whole by the evaluated candidate (fitness, iteration, parameters of index it % population)" if rel < 0 else "kept as a whole" if rel > 0 else "replaced or kept as a whole"
+            viol.setdefault("incumbent", (f"{ {b: got[b].canon()[:50] for b in BEST_FIELDS} } in the world [{model.describe(w)}]",
+                                          f"the candidate is {'better than' if rel < 0 else 'worse than' if rel > 0 else 'as good as'} the incumbent: it must be {want_txt}"))
+        # fitness slot and counter
+        slots = [(b_, i_, v_) for (_n, b_, i_, v_) in sm.pe.effects if b_ == f"{POP}.fitness"]
+        checked.add("records-fitness")
+        ok = len(slots) == 1 and slots[0][1] == K.canon() and slots[0][2] == fk
+        if not ok:
+            if len(slots) == 1 and not same_ingredients(slots[0][2], fk):
+                raise AnalysisError(f"{q}: fitness slot := `{slots[0][2].canon()[:80]}` (unrecognised form)")
+            viol.setdefault("records-fitness", (f"population.fitness writes: {[(i_, v_.canon()[:40]) for _b, i_, v_ in slots]} ({'maximise' if mx else 'minimise'})",
+                                                "the sign-adjusted fitness (negated exactly when maximising) must be stored at the evaluated index k = it % population"))
+        it = st.get(f"{ST}.it")
+        checked.add("it+1")
+        if not (it is not None and it == IT + Poly.const(1)):
+            if it is None or not same_ingredients(it, IT):
+                raise AnalysisError(f"{q}: evaluation counter := `{it.canon()[:60] if it is not None else None}` (unrecognised form)")
+            viol.setdefault("it+1", (f"{ST}.it = {it.canon()}", "the evaluation counter advances by one per feedback"))
+    for key in sorted(checked):
+        v = viol.get(key)
+        ck.ob("R2-incumbent", q, f"table:{key}", v is None, f"{n_worlds} order worlds, {len(sums)} paths" if v is None else v[0], "" if v is None else v[1], where)
+    ck.floor("feedback-worlds", n_worlds, 20)
     # writers of best_* elsewhere
+    transparent = repo.transparent_helpers()
     for qual, f2, mi2 in repo.all_functions():
-        if not qual.startswith(CM) or qual == q or qual.endswith("CMAESState.create"):
+        if not qual.startswith(CM) or qual == q or qual.endswith("CMAESState.create") or qual in transparent:
             continue
         for n in ast.walk(f2):
             if isinstance(n, (ast.Assign, ast.AugAssign)):
-                tg = n.targets[0] if isinstance(n, ast.Assign) else n.target
-                if isinstance(tg, ast.Attribute) and tg.attr in ("best_fitness", "best_fitness_it", "best_params") and dotted(tg).startswith("state."):
-                    ck.ob("R2-incumbent", qual, f"foreign-writer:{tg.attr}", False, short(n), "the incumbent may only be written by set_evaluation_feedback", loc(mi2, n))
-    # train_cmaes un-negates and maximises
-    q = CM + "train_cmaes"
-    fn = repo.func(q)
-    txt = "\n".join(ast.unparse(s) for s in fn.body)
-    ok = "best_fitness = -state.best_fitness" in txt and "maximize=True" in txt
-    ck.ob("R2-incumbent", q, "reported-sign", ok, "maximize=True and best_fitness = -state.best_fitness", "" if ok else "returns are maximised through negation; the reported best fitness must be un-negated", loc(fn._module, fn))
-    ok = "set_evaluation_feedback(config, state, population, ret)" in txt and "set_params(policy, get_next_parameters(config, state, population))" in txt
-    ck.ob("R2-incumbent", q, "evaluates-what-it-sets", ok, "set_params(policy, next candidate) ... set_evaluation_feedback(.., ret)", "" if ok else "each episode must evaluate the candidate that was written into the policy", loc(fn._module, fn))
+                for tg in (n.targets if isinstance(n, ast.Assign) else [n.target]):
+                    if isinstance(tg, ast.Attribute) and tg.attr in BEST_FIELDS:
+                        ck.ob("R2-incumbent", qual, f"foreign-writer:{tg.attr}", False, short(n), "the incumbent may only be written by set_evaluation_feedback", loc(mi2, n))
     gq = CM + "get_next_parameters"
-    g = nf.return_poly(gq, _env(repo.func(gq))).canon()
-    ok = g == "population.samples[mod(state.it, config.n_samples_per_update)]"
-    ck.ob("R2-incumbent", gq, "same-index-as-feedback", ok, f"return {g}", "" if ok else "the candidate handed out must be the one whose feedback index is it % population", loc(repo.func(gq)._module, repo.func(gq)))
+    gfn = split_conditional_assignments(repo.func(gq))
+    ck._keep.append(gfn)
+    gp = param_names(gfn)
+    gcfg = nf.cfg_of(gfn)
+    genv = _env(gfn)
+    want = nf.poly(parse_expr(f"{gp[2]}.samples[{gp[1]}.it % {gp[0]}.n_samples_per_update]"), Scope(None, gfn._module, genv, gq), None)
+    NON_IDENTITY = ("clip", "minimum", "maximum", "tanh", "round", "floor", "abs", "where")
+    for sm in summarise_paths(nf, gcfg, gfn._module, gq, genv, {}):
+        g = sm.ret
+        ck.need(g is not None, f"{gq}: path without return value")
+        ok = g == want
+        why = "the candidate handed out must be the one whose feedback index is it % population"
+        if not ok:
+            m_ = nf.meta.get(g.single_atom() or "", {})
+            if m_.get("fn", "").split(".")[-1] in NON_IDENTITY and m_.get("args") and any(a_ == want for a_ in m_["args"][:2]):
+                why = f"the candidate handed out is {m_['fn'].split('.')[-1]}(population.samples[k], ...), not the stored sample: the incumbent and the mean are then built from points that were never evaluated"
+            elif not same_ingredients(g, want):
+                raise AnalysisError(f"{gq}: returns `{g.canon()[:80]}` (unrecognised form)")
+        ck.ob("R2-incumbent", gq, "same-index-as-feedback", ok, f"return {g.canon()[:100]}", "" if ok else why, loc(gfn._module, gfn))
 
-    # ---- R3 / R4 update_search_distribution ------------------------------------------------------------------------
+
+def r2_train_loop(ck, repo, nf):
+    from .c15 import _role_of_counter
+    q = CM + "train_cmaes"
+    L = find_env_loop(repo, q)
+    cfg, mi, fn = L.cfg, L.mi, L.fn
+
+    def calls_of(target):
+        return [(n, c) for n in cfg.nodes if n.ast is not None and n.kind == "stmt" for c in ast.walk(n.ast)
+                if isinstance(c, ast.Call) and isinstance(c.func, (ast.Name, ast.Attribute)) and repo.resolve_expr(mi, c.func) == target]
+    body = cfg.loop_body_nodes(L.outer_header)
+    fbs = [(n, c) for n, c in calls_of(CM + "set_evaluation_feedback") if n.id in body]
+    sps = [(n, c) for n, c in calls_of(CM + "set_params") if n.id in body]
+    ck.need(len(fbs) == 1 and len(sps) == 1, f"{q}: expected one set_params and one set_evaluation_feedback call per episode, found {len(sps)} / {len(fbs)}")
+    (fbn, fbc), (spn, spc) = fbs[0], sps[0]
+    fb_fn, sp_fn, gn_fn = repo.func(CM + "set_evaluation_feedback"), repo.func(CM + "set_params"), repo.func(CM + "get_next_parameters")
+    fbb = bind_call(fb_fn, fbc)
+    fparams = param_names(fb_fn)
+    spb = bind_call(sp_fn, spc)
+    cand = spb.get(param_names(sp_fn)[1])
+    cand_e, cand_at = cand, spn.id
+    if isinstance(cand, ast.Name):
+        ds = cfg.defs_of(spn.id, cand.id)
+        if len(ds) == 1 and ds[0].kind == "assign":
+            cand_e, cand_at = ds[0].value, ds[0].node
+    ck.need(isinstance(cand_e, ast.Call) and isinstance(cand_e.func, (ast.Name, ast.Attribute)) and repo.resolve_expr(mi, cand_e.func) == CM + "get_next_parameters",
+            f"{q}: the parameters written into the policy `{short(cand_e, 60)}` are not the result of get_next_parameters (unrecognised form)")
+    gb = bind_call(gn_fn, cand_e)
+    same_objs = all(isinstance(gb.get(a), ast.Name) and isinstance(fbb.get(b), ast.Name) and gb[a].id == fbb[b].id and
+                    [d.node for d in cfg.defs_of(cand_at, gb[a].id)] == [d.node for d in cfg.defs_of(fbn.id, fbb[b].id)]
+                    for a, b in zip(param_names(gn_fn)[:3], fparams[:3]))
+    order = cfg.dominates(spn.id, fbn.id)
+    ok = same_objs and order
+    ck.ob("R2-incumbent", q, "evaluates-what-it-sets", ok, f"`{short(spc, 70)}` ... `{short(fbc, 70)}`",
+          "" if ok else "each episode must evaluate the candidate that was written into the policy: same config / state / population between get_next_parameters and set_evaluation_feedback, in this order", loc(mi, fbc))
+    ret_arg = fbb.get(fparams[3])
+    ck.need(isinstance(ret_arg, ast.Name), f"{q}: feedback argument `{short(ret_arg) if ret_arg is not None else None}` (unrecognised form)")
+    role = _role_of_counter(cfg, L, ret_arg.id, body)
+    if role is None:
+        raise AnalysisError(f"{q}: cannot classify the feedback variable `{ret_arg.id}` by its updates")
+    ck.ob("R2-incumbent", q, "feedback-is-return", role == "return", f"feedback <- `{ret_arg.id}` ({role} counter)", "" if role == "return" else "the fitness of a candidate is the return of its episode", loc(mi, fbc))
+    # the env episode lies between writing the candidate and its feedback
+    ok = cfg.dominates(spn.id, L.step_node) and cfg.dominates(spn.id, fbn.id) and cfg.paths_avoiding(L.step_node, fbn.id, {spn.id}) is not None
+    ck.ob("R2-incumbent", q, "episode-between", ok, "set_params -> env.step ... -> set_evaluation_feedback", "" if ok else "the candidate must be written into the policy before the episode that evaluates it", loc(mi, spc))
+    # reported sign
+    confs = calls_of(CM + "CMAESConfig.create")
+    ck.need(len(confs) == 1, f"{q}: CMAESConfig.create call not found")
+    m = repo.method(CM + "CMAESConfig", "create", inherited=False)
+    cb = bind_call(m[1], confs[0][1], skip_self=True)
+    mxv = cb.get("maximize")
+    ck.need(isinstance(mxv, ast.Constant) and isinstance(mxv.value, bool), f"{q}: maximize is not a literal")
+    rets = [n for n in cfg.nodes if n.kind == "stmt" and isinstance(n.ast, ast.Return) and n.ast.value is not None]
+    ck.need(len(rets) == 1, f"{q}: expected one return")
+    rv = rets[0].ast.value
+    elts = None
+    if isinstance(rv, ast.Call) and len(rv.args) >= 2:
+        elts = rv.args
+    elif isinstance(rv, ast.Tuple):
+        elts = rv.elts
+    ck.need(elts is not None and len(elts) >= 2, f"{q}: result construction (unrecognised form)")
+    rexpr = elts[1]
+    if isinstance(rexpr, ast.Name):
+        ds = cfg.defs_of(rets[0].id, rexpr.id)
+        ck.need(len(ds) == 1 and ds[0].kind == "assign", f"{q}: reported best fitness `{rexpr.id}` (unrecognised form)")
+        rexpr = ds[0].value
+    got = nf.poly(rexpr, Scope(None, mi, {}, q), None)
+    st_name = fbb[fparams[1]].id
+    want = nf.poly(parse_expr(f"{'-' if mxv.value else ''}{st_name}.best_fitness"), Scope(None, mi, {}, q), None)
+    ok = got == want
+    if not ok and not same_ingredients(got, want):
+        raise AnalysisError(f"{q}: reported best fitness `{got.canon()[:80]}` (unrecognised form)")
+    ck.ob("R2-incumbent", q, "reported-sign", ok, f"maximize={mxv.value}; reported best fitness = {got.canon()}", "" if ok else "returns are maximised through negation; the reported best fitness must be un-negated", loc(mi, rets[0].ast))
+    ck.ob("R2-incumbent", q, "maximises-return", mxv.value is True, f"CMAESConfig.create(maximize={mxv.value})", "" if mxv.value else "episode returns are to be maximised", loc(mi, confs[0][1]))
+
+
+# ---- R3 / R4 -------------------------------------------------------------------------------------------------------------------------------
+def r34_update(ck, repo, nf):
     q = CM + "update_search_distribution"
     fn = repo.func(q)
     mi = fn._module
     cfg = nf.cfg_of(fn)
     env = _env(fn)
-    olds = {k: Poly.atom("old." + k) for k in ("state.mean", "state.last_mean", "state.var", "state.ps", "state.pc", "state.cov", "state.invsqrtC", "state.it", "state.eigen_decomp_updated")}
+    CONF, ST, POP = param_names(fn)[:3]
+    olds = {f"{ST}.{k}": Poly.atom(f"old.{ST}.{k}") for k in ("mean", "last_mean", "var", "ps", "pc", "cov", "invsqrtC", "it", "eigen_decomp_updated")}
     paths = enumerate_paths(cfg, cfg.entry, {cfg.exit})
     ck.count("update-paths", len(paths))
-    sc0 = Scope(None, mi, {**env, **{k.replace(".", "_"): v for k, v in olds.items()}}, q)
-    want_mean = nf.poly(parse_expr("jnp.sum(config.weights[:, jnp.newaxis] * population.samples[jnp.argsort(jnp.asarray(population.fitness), axis=0)[:config.mu]], axis=0)"), sc0, None)
+    sc0 = Scope(None, mi, env, q)
+    want_mean = nf.poly(parse_expr(f"jnp.sum({CONF}.weights[:, jnp.newaxis] * {POP}.samples[jnp.argsort(jnp.asarray({POP}.fitness), axis=0)[:{CONF}.mu]], axis=0)"), sc0, None)
     done = set()
     for p in paths:
         pe = PathEval(nf, cfg, mi, q, env)
         pe.store = dict(olds)
         pe.run(p)
-        mean, last, var = pe.store["state.mean"], pe.store["state.last_mean"], pe.store["state.var"]
+        mean, last, var = pe.store[f"{ST}.mean"], pe.store[f"{ST}.last_mean"], pe.store[f"{ST}.var"]
         key = (mean.canon(), last.canon(), var.canon())
         if key in done:
             continue
         done.add(key)
         ok = mean == want_mean
+        if not ok and not same_ingredients(mean, want_mean, ("old", ST, "mean", "last_mean")):
+            raise AnalysisError(f"{q}: mean' = `{mean.canon()[:100]}` (unrecognised form)")
         ck.ob("R3-mean", q, "recombination", ok, f"mean' = {mean.canon()[:150]}", "" if ok else f"must be the weight-averaged best mu candidates: {want_mean.canon()[:120]}", loc(mi, fn))
-        ok = last == olds["state.mean"]
-        ck.ob("R3-mean", q, "last-mean", ok, f"last_mean' = {last.canon()}", "" if ok else "last_mean must hold the mean before this update", loc(mi, fn))
-        v = var.canon()
-        ok = False
+        ok = last == olds[f"{ST}.mean"]
+        if not ok and not same_ingredients(last, want_mean, ("old", ST, "mean", "last_mean")):
+            raise AnalysisError(f"{q}: last_mean' = `{last.canon()[:100]}` (unrecognised form)")
+        ck.ob("R3-mean", q, "last-mean", ok, f"last_mean' = {last.canon()[:100]}", "" if ok else "last_mean must hold the mean before this update", loc(mi, fn))
+        # var' = old.var * exp(min(0.6, X))^2
+        OV = f"old.{ST}.var"
+        verdict = None
         if len(var.terms) == 1:
             (mono, c), = var.terms.items()
             d = dict(mono)
-            others = [a for a in d if a != "old.state.var"]
-            ok = c == 1 and d.get("old.state.var") == 1 and len(others) == 1 and d[others[0]] == 2 and others[0].startswith("exp(min((3/5, ") and "log_step" not in others[0]
-            if ok:
-                inner = nf.meta.get(others[0], {}).get("args", [None])[0]
-                ok = inner is not None and (inner.single_atom() or "").startswith("min((3/5, ")
-        ck.ob("R4-step-size", q, "capped-growth", ok, f"var' = {v[:150]}", "" if ok else "must be var * exp(min(0.6, log_step_size_update))**2: the step size grows by at most exp(0.6) per update", loc(mi, fn))
+            others = [a for a in d if a != OV]
+            if c == 1 and d.get(OV) == 1 and len(others) == 1 and nf.meta.get(others[0], {}).get("fn", "").split(".")[-1] == "exp":
+                inner = nf.meta[others[0]]["args"][0]
+                scale = d[others[0]]
+                im = nf.meta.get(inner.single_atom() or "", {})
+                if im.get("fn") in ("min", "minimum") or im.get("fn", "").endswith(".minimum"):
+                    consts = [a.const_value() for a in im["args"] if a.is_const()]
+                    verdict = scale == 2 and len(im["args"]) == 2 and len(consts) == 1 and consts[0] * 5 == 3
+                    why = f"cap constant {[float(x) for x in consts]} with exponent {scale}"
+                elif not any("min" in t for t in inner.atoms()):
+                    verdict, why = False, "no cap on the exponent"
+        if verdict is None:
+            raise AnalysisError(f"{q}: var' = `{var.canon()[:120]}` (unrecognised form)")
+        ck.ob("R4-step-size", q, "capped-growth", verdict, f"var' = {var.canon()[:150]}", "" if verdict else f"must be var * exp(min(0.6, log_step_size_update))**2: the step size grows by at most exp(0.6) per update ({why})", loc(mi, fn))
 
-    # ---- R5 flat / set ------------------------------------------------------------------------------------------------
+
+# ---- R5 ------------------------------------------------------------------------------------------------------------------------------------
+class _Terms:
+    """Dataflow terms of one function: names are followed to their single reaching definition; calls are named by their resolved target."""
+
+    def __init__(self, repo, fn, cfg):
+        self.repo, self.fn, self.cfg, self.mi = repo, fn, cfg, fn._module
+        self.params = param_names(fn)
+
+    def val(self, e, at, depth=0):
+        if depth > 12:
+            return ("deep",)
+        if isinstance(e, ast.Name):
+            ds = self.cfg.defs_of(at, e.id)
+            if len(ds) == 1 and ds[0].kind == "param":
+                return ("param", e.id)
+            if len(ds) == 1 and ds[0].kind == "assign":
+                return self.val(ds[0].value, ds[0].node, depth + 1)
+            if len(ds) == 1 and ds[0].kind == "unpack" and ds[0].path and len(ds[0].path) == 1:
+                return ("proj", self.val(ds[0].value, ds[0].node, depth + 1), ds[0].path[0])
+            if not ds:
+                return ("global", self.repo.resolve_name(self.mi, e.id) or e.id)
+            return ("phi", e.id)
+        if isinstance(e, ast.Attribute):
+            r = self.repo.resolve_expr(self.mi, e)
+            if r:
+                return ("global", r)
+            return ("attr", self.val(e.value, at, depth + 1), e.attr)
+        if isinstance(e, ast.Subscript) and isinstance(e.slice, ast.Constant) and isinstance(e.slice.value, int):
+            return ("proj", self.val(e.value, at, depth + 1), e.slice.value)
+        if isinstance(e, ast.Call):
+            f = e.func
+            name = self.repo.resolve_expr(self.mi, f) if isinstance(f, (ast.Name, ast.Attribute)) else None
+            recv = None
+            if name is None and isinstance(f, ast.Attribute):
+                name, recv = "." + f.attr, self.val(f.value, at, depth + 1)
+            elif name is None and isinstance(f, ast.Name):
+                name = f.id
+            args = [self.val(a, at, depth + 1) for a in e.args if not isinstance(a, ast.Starred)]
+            kws = {k.arg: self.val(k.value, at, depth + 1) for k in e.keywords if k.arg}
+            return ("call", name, ([recv] if recv is not None else []) + args, kws)
+        if isinstance(e, ast.Constant):
+            return ("const", e.value)
+        return ("expr", ast.dump(e)[:80])
+
+
+LEAVES = ("jax.tree_util.tree_leaves", "jax.tree.leaves", "jax.tree_leaves")
+FLATTEN = ("jax.tree_util.tree_flatten", "jax.tree.flatten", "jax.tree_flatten")
+STRUCTURE = ("jax.tree_util.tree_structure", "jax.tree.structure", "jax.tree_structure")
+UNFLATTEN = ("jax.tree_util.tree_unflatten", "jax.tree.unflatten", "jax.tree_unflatten")
+
+
+def _is_param_state(t, net):
+    return t[0] == "call" and t[1] == "flax.nnx.state" and len(t[2]) == 2 and t[2][0] == ("param", net) and t[2][1] == ("global", "flax.nnx.Param") and not t[3]
+
+
+def _state_of_leaves(t):
+    if t[0] == "call" and t[1] in LEAVES and len(t[2]) == 1:
+        return t[2][0]
+    if t[0] == "proj" and t[2] == 0 and t[1][0] == "call" and t[1][1] in FLATTEN and len(t[1][2]) == 1:
+        return t[1][2][0]
+    return None
+
+
+def _state_of_treedef(t):
+    if t[0] == "call" and t[1] in STRUCTURE and len(t[2]) == 1:
+        return t[2][0]
+    if t[0] == "proj" and t[2] == 1 and t[1][0] == "call" and t[1][1] in FLATTEN and len(t[1][2]) == 1:
+        return t[1][2][0]
+    return None
+
+
+def _elementwise_ravel(T, e, at, depth=0):
+    """(source expression, node) when ``e`` applies ravel / reshape(-1) / flatten to every element of a sequence, in order; else None."""
+    cfg = T.cfg
+    if depth > 6:
+        return None
+    if isinstance(e, ast.Name):
+        ds = cfg.defs_of(at, e.id)
+        if len(ds) == 1 and ds[0].kind == "assign":
+            return _elementwise_ravel(T, ds[0].value, ds[0].node, depth + 1)
+        return None
+    if isinstance(e, ast.Call) and isinstance(e.func, ast.Name) and e.func.id in ("list", "tuple") and len(e.args) == 1:
+        return _elementwise_ravel(T, e.args[0], at, depth + 1)
+
+    def is_ravel_of(x, var):
+        if isinstance(x, ast.Call) and isinstance(x.func, ast.Attribute) and isinstance(x.func.value, ast.Name) and x.func.value.id == var:
+            if x.func.attr in ("ravel", "flatten") and not x.args:
+                return True
+            if x.func.attr == "reshape" and len(x.args) == 1 and ((isinstance(x.args[0], ast.UnaryOp) and isinstance(x.args[0].op, ast.USub) and isinstance(x.args[0].operand, ast.Constant) and x.args[0].operand.value == 1)
+                                                                 or (isinstance(x.args[0], ast.Constant) and x.args[0].value == -1)):
+                return True
+        if isinstance(x, ast.Call) and isinstance(x.func, (ast.Name, ast.Attribute)) and T.repo.resolve_expr(T.mi, x.func) in ("jax.numpy.ravel", "numpy.ravel") and len(x.args) == 1 and isinstance(x.args[0], ast.Name) and x.args[0].id == var:
+            return True
+        return False
+    if isinstance(e, (ast.ListComp, ast.GeneratorExp)) and len(e.generators) == 1 and not e.generators[0].ifs and isinstance(e.generators[0].target, ast.Name):
+        if is_ravel_of(e.elt, e.generators[0].target.id):
+            return e.generators[0].iter, at
+        return None
+    if isinstance(e, ast.Call) and isinstance(e.func, ast.Name) and e.func.id == "map" and len(e.args) == 2:
+        f = e.args[0]
+        if isinstance(f, ast.Lambda) and len(f.args.args) == 1 and is_ravel_of(f.body, f.args.args[0].arg):
+            return e.args[1], at
+        if isinstance(f, (ast.Name, ast.Attribute)) and T.repo.resolve_expr(T.mi, f) in ("jax.numpy.ravel", "numpy.ravel"):
+            return e.args[1], at
+    return None
+
+
+def r5_flat_set(ck, repo, nf):
     fq, sq = CM + "flat_params", CM + "set_params"
     f, s = repo.func(fq), repo.func(sq)
-    ft = "\n".join(ast.unparse(x) for x in f.body if not (isinstance(x, ast.Expr) and isinstance(x.value, ast.Constant)))
-    st = "\n".join(ast.unparse(x) for x in s.body if not (isinstance(x, ast.Expr) and isinstance(x.value, ast.Constant)))
-    ok = "state = nnx.state(net, nnx.Param)" in ft and "leaves = jax.tree_util.tree_leaves(state)" in ft and "x.ravel()" in ft and "jnp.concatenate(flat_leaves, axis=0)" in ft
-    ck.ob("R5-flat-set", fq, "leaf-order-and-ravel", ok, "nnx.state(net, nnx.Param) -> tree_leaves -> ravel -> concatenate", "" if ok else "flat_params must concatenate the raveled Param leaves in tree_leaves order", loc(f._module, f))
-    ok = "state = nnx.state(net, nnx.Param)" in st and "leaves = jax.tree_util.tree_leaves(state)" in st and "treedef = jax.tree_util.tree_structure(state)" in st and \
-        "jax.tree_util.tree_unflatten(treedef, new_leaves)" in st and "nnx.update(net, state)" in st
-    ck.ob("R5-flat-set", sq, "same-filter-and-order", ok, "nnx.state(net, nnx.Param) -> tree_leaves / tree_structure -> tree_unflatten -> nnx.update", "" if ok else "set_params must use the same Param filter and leaf order as flat_params and write back with nnx.update", loc(s._module, s))
-    # slicing loop: consecutive slices
-    lp = next((n for n in s.body if isinstance(n, ast.For)), None)
-    ck.need(lp is not None, f"{sq}: leaf loop not found")
+    # -- flat_params --------------------------------------------------------------------------------------------------------------
+    cfg = nf.cfg_of(f)
+    T = _Terms(repo, f, cfg)
+    net = T.params[0]
+    rets = [n for n in cfg.nodes if n.kind == "stmt" and isinstance(n.ast, ast.Return) and n.ast.value is not None]
+    ck.need(len(rets) == 1, f"{fq}: expected one return")
+    rv, rat = rets[0].ast.value, rets[0].id
+    if isinstance(rv, ast.Name):
+        ds = cfg.defs_of(rat, rv.id)
+        ck.need(len(ds) == 1 and ds[0].kind == "assign", f"{fq}: returned value (unrecognised form)")
+        rv, rat = ds[0].value, ds[0].node
+    ck.need(isinstance(rv, ast.Call) and isinstance(rv.func, (ast.Name, ast.Attribute)) and repo.resolve_expr(T.mi, rv.func) in ("jax.numpy.concatenate", "jax.numpy.hstack") and rv.args,
+            f"{fq}: the flat vector `{short(rv, 60)}` is not a concatenation (unrecognised form)")
+    axis = next((k.value for k in rv.keywords if k.arg == "axis"), rv.args[1] if len(rv.args) > 1 else None)
+    ck.need(axis is None or (isinstance(axis, ast.Constant) and axis.value == 0), f"{fq}: concatenation axis (unrecognised form)")
+    ew = _elementwise_ravel(T, rv.args[0], rat)
+    ck.need(ew is not None, f"{fq}: `{short(rv.args[0], 60)}` is not an element-wise ravel of the leaves (unrecognised form)")
+    st = _state_of_leaves(T.val(ew[0], ew[1]))
+    ck.need(st is not None, f"{fq}: the raveled sequence `{short(ew[0], 50)}` is not a pytree leaf list (unrecognised form)")
+    ok = _is_param_state(st, net)
+    ck.ob("R5-flat-set", fq, "leaf-order-and-ravel", ok, f"concatenate(ravel(leaf) for leaf in leaves({_show(st)}))", "" if ok else "flat_params must concatenate the raveled leaves of nnx.state(net, nnx.Param) in pytree order", loc(f._module, f))
+    # -- set_params ----------------------------------------------------------------------------------------------------------------
     cfg = nf.cfg_of(s)
-    hdr = cfg.stmt_node[id(lp)]
-    env0 = {**_env(s), "n_params_set": Poly.atom("OFF"), "new_leaves": Poly.atom("L")}
-    paths = enumerate_paths(cfg, hdr, {hdr}, first_label=True)
-    ck.need(len(paths) == 1, f"{sq}: loop body not straight-line")
+    T = _Terms(repo, s, cfg)
+    net, vec = T.params[0], T.params[1]
+    ups = [(n, c) for n in cfg.nodes if n.ast is not None and n.kind == "stmt" for c in ast.walk(n.ast)
+           if isinstance(c, ast.Call) and isinstance(c.func, (ast.Name, ast.Attribute)) and repo.resolve_expr(T.mi, c.func) == "flax.nnx.update"]
+    ck.need(len(ups) == 1 and len(ups[0][1].args) == 2, f"{sq}: expected one nnx.update(net, state) call")
+    un, uc = ups[0]
+    ok_net = T.val(uc.args[0], un.id) == ("param", net)
+    new_state = T.val(uc.args[1], un.id)
+    ck.need(new_state[0] == "call" and new_state[1] in UNFLATTEN and len(new_state[2]) == 2, f"{sq}: the written state `{short(uc.args[1], 50)}` is not a tree_unflatten(...) (unrecognised form)")
+    td_state = _state_of_treedef(new_state[2][0])
+    ck.need(td_state is not None, f"{sq}: tree definition (unrecognised form)")
+    # the leaf loop
+    loops = [n for n in cfg.nodes if n.kind == "for"]
+    ck.need(len(loops) == 1, f"{sq}: leaf loop not found (unrecognised form)")
+    lp = loops[0]
+    lv_state = _state_of_leaves(T.val(lp.ast.iter, lp.id))
+    ck.need(lv_state is not None and isinstance(lp.ast.target, ast.Name), f"{sq}: the loop does not iterate over pytree leaves (unrecognised form)")
+    ok = ok_net and _is_param_state(td_state, net) and _is_param_state(lv_state, net)
+    ck.ob("R5-flat-set", sq, "same-filter-and-order", ok, f"leaves({_show(lv_state)}), treedef({_show(td_state)}) -> tree_unflatten -> nnx.update({_show(T.val(uc.args[0], un.id))}, .)",
+          "" if ok else "set_params must use the same Param filter and leaf order as flat_params and write back into the same network with nnx.update", loc(s._module, s))
+    # loop-carried variables get symbolic entry values; the body is straight-line
+    lbody = cfg.loop_body_nodes(lp.id)
+    grown_names = {c.func.value.id for m in cfg.nodes if m.id in lbody and m.ast is not None and m.kind == "stmt" for c in ast.walk(m.ast)
+                   if isinstance(c, ast.Call) and isinstance(c.func, ast.Attribute) and c.func.attr in ("append", "extend") and isinstance(c.func.value, ast.Name)}
+    carried = sorted(({d.name for m in cfg.nodes if m.id in lbody for d in m.defs} | grown_names) - {lp.ast.target.id})
+    env0 = {**_env(s), **{v: Poly.atom(f"IN.{v}") for v in carried}}
+    paths = enumerate_paths(cfg, lp.id, {lp.id}, first_label=True)
+    ck.need(len(paths) == 1, f"{sq}: loop body not straight-line (unrecognised form)")
     pe = PathEval(nf, cfg, s._module, sq, env0).run(paths[0][:-1])
-    leaf = lp.target.id
-    off = pe.env["n_params_set"].canon()
-    ok = off == f"OFF + prod({pe.env[leaf].canon()}.shape)"
-    ck.ob("R5-flat-set", sq, "offset-advance", ok, f"offset' = {off}", "" if ok else "the read offset must advance by prod(leaf.shape) per leaf", loc(s._module, lp))
-    app = [v for (nid, t, v) in pe.log if t == "<expr>" and ".append(" in v.canon()]
-    a = app[0].canon() if app else ""
-    want = f"L.append(reshape(params[OFF:OFF + prod({pe.env[leaf].canon()}.shape)], {pe.env[leaf].canon()}.shape))"
-    ok = a == want
-    ck.ob("R5-flat-set", sq, "slice-and-reshape", ok, f"{a[:140]}", "" if ok else f"each leaf must take the slice [offset, offset+size) reshaped to its shape: {want}", loc(s._module, lp))
+    leaf = pe.env[lp.ast.target.id].canon()
+    size = nf.poly(parse_expr("np.prod(LEAF.shape)"), Scope(None, s._module, {"LEAF": pe.env[lp.ast.target.id]}, sq), None)
+    # the container that reaches tree_unflatten, and what is appended to it
+    leaves_arg = None
+    # locate the tree_unflatten call expression to read its second argument as a name
+    for m in cfg.nodes:
+        if m.ast is None or m.kind != "stmt":
+            continue
+        for c in ast.walk(m.ast):
+            if isinstance(c, ast.Call) and isinstance(c.func, (ast.Name, ast.Attribute)) and repo.resolve_expr(T.mi, c.func) in UNFLATTEN and len(c.args) == 2:
+                leaves_arg = c.args[1]
+    ck.need(isinstance(leaves_arg, ast.Name) and leaves_arg.id in carried, f"{sq}: new leaves container (unrecognised form)")
+    C = leaves_arg.id
+    grown = pe.env[C]
+    offs = [v for v in carried if v != C and pe.env[v] == Poly.atom(f"IN.{v}") + size]
+    want_any = None
+    ok_slice = False
+    for o in offs:
+        want = nf.poly(parse_expr("CONT + [VEC[OFF:OFF + SIZE].reshape(LEAF.shape)]"), Scope(None, s._module, {"CONT": Poly.atom(f"IN.{C}"), "VEC": env0[vec], "OFF": Poly.atom(f"IN.{o}"), "SIZE": size, "LEAF": pe.env[lp.ast.target.id]}, sq), None)
+        want_any = want
+        if grown == want:
+            ok_slice = True
+            # the offset starts at 0 and the container empty
+            d0 = [d for d in cfg.defs_of(lp.id, o) if d.node not in lbody]
+            c0 = [d for d in cfg.defs_of(lp.id, C) if d.node not in lbody]
+            ok0 = len(d0) == 1 and isinstance(d0[0].value, ast.Constant) and d0[0].value.value == 0 and len(c0) == 1 and isinstance(c0[0].value, (ast.List,)) and not c0[0].value.elts
+            ck.ob("R5-flat-set", sq, "offset-starts-at-zero", ok0, f"`{o}` and `{C}` before the loop", "" if ok0 else "the first leaf must start at position 0 of the flat vector and the container must start empty", loc(s._module, lp.ast))
+    ck.ob("R5-flat-set", sq, "offset-advance", bool(offs), f"loop-carried {[(v, pe.env[v].canon()[:60]) for v in carried if v != C]}", "" if offs else "the read offset must advance by prod(leaf.shape) per leaf", loc(s._module, lp.ast))
+    if offs and not ok_slice:
+        if want_any is not None and not same_ingredients(grown, want_any, ("np", "jnp")):
+            raise AnalysisError(f"{sq}: appended leaf `{grown.canon()[:120]}` (unrecognised form)")
+    if offs:
+        ck.ob("R5-flat-set", sq, "slice-and-reshape", ok_slice, f"{grown.canon()[:140]}", "" if ok_slice else "each leaf must take the slice [offset, offset+size) of the flat vector reshaped to its shape", loc(s._module, lp.ast))
 
-    # ---- R6 CEM ------------------------------------------------------------------------------------------------------------
+
+def _show(t, depth=0):
+    if not isinstance(t, tuple) or depth > 4:
+        return str(t)[:30]
+    if t[0] in ("param", "global", "const", "phi"):
+        return str(t[1]).rsplit(".", 1)[-1]
+    if t[0] == "call":
+        return f"{str(t[1]).rsplit('.', 1)[-1]}({', '.join(_show(a, depth + 1) for a in t[2])})"
+    if t[0] == "proj":
+        return f"{_show(t[1], depth + 1)}[{t[2]}]"
+    if t[0] == "attr":
+        return f"{_show(t[1], depth + 1)}.{t[2]}"
+    return t[0]
+
+
+# ---- R6 ------------------------------------------------------------------------------------------------------------------------------------
+def r6_cem(ck, repo, nf):
     q = "rl_blox.blox.cross_entropy_method.cem_update"
     fn = repo.func(q)
     nf6 = NF(repo, inline_depth=3)
     got = nf6.return_poly(q, _env(fn))
     ck.need(got.elems is not None and len(got.elems) == 2, f"{q}: must return (mean, var)")
+    P = param_names(fn)
+    ck.need(len(P) >= 6, f"{q}: signature changed")
+    SM, FI, ME, VA, NE, AL = P[:6]
     sc6 = Scope(None, fn._module, _env(fn), q)
-    elite_specs = ["jnp.take(samples, jax.lax.top_k(fitness, n_elite)[1], axis=0)", "samples[jax.lax.top_k(fitness, n_elite)[1]]", "samples[jnp.argsort(fitness)[-n_elite:]]", "samples[jnp.argsort(-fitness)[:n_elite]]"]
-    okm = any(got.elems[0] == nf6.poly(parse_expr(f"alpha * mean + (1.0 - alpha) * jnp.mean({e}, axis=0)"), sc6, None) for e in elite_specs)
-    okv = any(got.elems[1] == nf6.poly(parse_expr(f"alpha * var + (1.0 - alpha) * jnp.var({e}, axis=0)"), sc6, None) for e in elite_specs)
+    elite_specs = [f"jnp.take({SM}, jax.lax.top_k({FI}, {NE})[1], axis=0)", f"{SM}[jax.lax.top_k({FI}, {NE})[1]]", f"{SM}[jnp.argsort({FI})[-{NE}:]]", f"{SM}[jnp.argsort(-{FI})[:{NE}]]"]
+    okm = any(got.elems[0] == nf6.poly(parse_expr(f"{AL} * {ME} + (1.0 - {AL}) * jnp.mean({e}, axis=0)"), sc6, None) for e in elite_specs)
+    okv = any(got.elems[1] == nf6.poly(parse_expr(f"{AL} * {VA} + (1.0 - {AL}) * jnp.var({e}, axis=0)"), sc6, None) for e in elite_specs)
     if okm and okv:
         ck.ob("R6-cem", q, "elites", True, f"mean' = {got.elems[0].canon()[:130]}", "", loc(fn._module, fn))
     else:
         txt = got.elems[0].canon() + " " + got.elems[1].canon()
-        thresholded = any(t in txt for t in ("LtE(", "Lt(", "GtE(", "Gt(")) and "fitness" in txt
+        thresholded = any(t in txt for t in ("LtE(", "Lt(", "GtE(", "Gt(")) and FI in txt
         if thresholded:
             ck.ob("R6-cem", q, "elites", False, f"mean' = {got.elems[0].canon()[:150]}",
                   "the elite set is defined by a fitness threshold (comparison), not by selecting n_elite candidates: with tied fitness values more than n_elite candidates enter the update", loc(fn._module, fn))
-        elif "top_k(-fitness" in txt or "argsort(fitness)[:n_elite]" in txt or "argsort(-fitness)[-n_elite:]" in txt:
+        elif f"top_k(-{FI}" in txt or f"argsort({FI})[:{NE}]" in txt or f"argsort(-{FI})[-{NE}:]" in txt:
             ck.ob("R6-cem", q, "elites", False, f"mean' = {got.elems[0].canon()[:150]}", "the update uses the n_elite candidates with the *smallest* fitness (CEM here is a maximiser)", loc(fn._module, fn))
-        elif "top_k" not in txt and "argsort" not in txt:
+        elif "top_k" not in txt and "argsort" not in txt and "sort" not in txt and "partition" not in txt:
             ck.ob("R6-cem", q, "elites", False, f"mean' = {got.elems[0].canon()[:150]}", "the update does not select the n_elite best candidates by fitness", loc(fn._module, fn))
         else:
             raise AnalysisError(f"{q}: elite selection `{got.elems[0].canon()[:100]}` is none of the enumerated forms (unrecognised idiom)")
     q = "rl_blox.blox.cross_entropy_method.optimize_cem"
     fn = repo.func(q)
-    txt = "\n".join(ast.unparse(x) for x in fn.body)
-    ok = "samples = cem_sample(mean, var, step_key, n_population, lb, ub)" in txt and "lb = jnp.asarray(lower_bound)" in txt and "ub = jnp.asarray(upper_bound)" in txt
-    ck.ob("R6-cem", q, "bounds-order", ok, "cem_sample(mean, var, key, n_population, lb, ub)", "" if ok else "optimize_cem must pass (lower, upper) bounds in this order", loc(fn._module, fn))
-    ok = "mean, var = cem_update(samples, f, mean, var, n_elite, alpha)" in txt and "f = fitness_function(samples)" in txt
-    ck.ob("R6-cem", q, "update-from-evaluated-samples", ok, "f = fitness(samples); mean, var = cem_update(samples, f, mean, var, n_elite, alpha)", "" if ok else "the update must use the fitness of the very samples it ranks", loc(fn._module, fn))
+    mi = fn._module
+    cfg = nf.cfg_of(fn)
+    OP = param_names(fn)
+    LO, UP = OP[7], OP[8]
+    ck.need(LO == "lower_bound" and UP == "upper_bound", f"{q}: signature changed (anchor vanished)")
+
+    def calls_of(target):
+        return [(n, c) for n in cfg.nodes if n.ast is not None and n.kind == "stmt" for c in ast.walk(n.ast)
+                if isinstance(c, ast.Call) and isinstance(c.func, (ast.Name, ast.Attribute)) and repo.resolve_expr(mi, c.func) == target]
+    smp = calls_of("rl_blox.blox.cross_entropy_method.cem_sample")
+    upd = calls_of("rl_blox.blox.cross_entropy_method.cem_update")
+    ck.need(len(smp) == 1 and len(upd) == 1, f"{q}: expected one cem_sample and one cem_update call, found {len(smp)} / {len(upd)}")
+    (sn, sc_), (un, uc) = smp[0], upd[0]
+    sfn, ufn = repo.func("rl_blox.blox.cross_entropy_method.cem_sample"), repo.func("rl_blox.blox.cross_entropy_method.cem_update")
+    sb, ub_ = bind_call(sfn, sc_), bind_call(ufn, uc)
+    SP = param_names(sfn)
+    scp = Scope(cfg, mi, {}, q)
+    lo_p = nf.poly(sb[SP[4]], scp, sn.id).canon() if SP[4] in sb else None
+    up_p = nf.poly(sb[SP[5]], scp, sn.id).canon() if SP[5] in sb else None
+    lo_ok = lo_p in (LO, f"asarray({LO})", f"array({LO})")
+    up_ok = up_p in (UP, f"asarray({UP})", f"array({UP})")
+    if not (lo_ok and up_ok) and not ({lo_p, up_p} <= {LO, UP, f"asarray({LO})", f"asarray({UP})", f"array({LO})", f"array({UP})"}):
+        raise AnalysisError(f"{q}: bounds passed to cem_sample are `{lo_p}`, `{up_p}` (unrecognised form)")
+    ck.ob("R6-cem", q, "bounds-order", lo_ok and up_ok, f"cem_sample(.., lb={lo_p}, ub={up_p})", "" if lo_ok and up_ok else "optimize_cem must pass (lower, upper) bounds in this order", loc(mi, sc_))
+    # the update ranks the samples that were evaluated
+    UPn = param_names(ufn)
+    s_arg, f_arg = ub_.get(UPn[0]), ub_.get(UPn[1])
+    ck.need(isinstance(s_arg, ast.Name) and isinstance(f_arg, (ast.Name, ast.Call)), f"{q}: cem_update arguments (unrecognised form)")
+    if isinstance(f_arg, ast.Name):
+        fd = cfg.defs_of(un.id, f_arg.id)
+        ck.need(len(fd) == 1 and fd[0].kind == "assign" and isinstance(fd[0].value, ast.Call), f"{q}: fitness values `{f_arg.id}` (unrecognised form)")
+        fcall, f_at = fd[0].value, fd[0].node
+    else:
+        fcall, f_at = f_arg, un.id
+    fit_ok = isinstance(fcall.func, ast.Name) and fcall.func.id == OP[0] and len(fcall.args) == 1 and isinstance(fcall.args[0], ast.Name)
+    if not fit_ok:
+        raise AnalysisError(f"{q}: fitness values come from `{short(fcall, 60)}` (unrecognised form)")
+    same = fcall.args[0].id == s_arg.id and [d.node for d in cfg.defs_of(f_at, fcall.args[0].id)] == [d.node for d in cfg.defs_of(un.id, s_arg.id)]
+    from_sample = [d.node for d in cfg.defs_of(un.id, s_arg.id)] == [sn.id]
+    ok = same and from_sample
+    ck.ob("R6-cem", q, "update-from-evaluated-samples", ok, f"`{short(fcall, 50)}`; `{short(uc, 70)}`", "" if ok else "the update must use the fitness of the very samples it ranks (the population drawn in this iteration)", loc(mi, uc))
+
+
+def run(ck, repo: Repo, tier: str):
+    nf = NF(repo, inline_depth=2)
+    ck.guard(r1_weights, ck, repo, nf)
+    ck.guard(r2_feedback_table, ck, repo, nf)
+    ck.guard(r2_train_loop, ck, repo, nf)
+    ck.guard(r34_update, ck, repo, nf)
+    ck.guard(r5_flat_set, ck, repo, nf)
+    ck.guard(r6_cem, ck, repo, nf)
 
 
 _C, _X = "rl_blox/algorithm/cmaes.py", "rl_blox/blox/cross_entropy_method.py"
 MUTANTS = [
+    {"id": "c16-next-clipped", "file": _C, "rule": "R2", "find": "    return population.samples[k]", "replace": "    return jnp.clip(population.samples[k], -1.0, 1.0)"},
+    {"id": "c16-feedback-steps", "file": _C, "rule": "R2", "find": "        set_evaluation_feedback(config, state, population, ret)", "replace": "        set_evaluation_feedback(config, state, population, step_counter)"},
+    {"id": "c16-cem-stale-fitness", "file": _X, "rule": "R6", "edits": [("        f = fitness_function(samples)\n", "        f = fitness_function(mean[jnp.newaxis] + 0.0 * samples)\n")], "accept_error": True},
+    {"id": "c16-flat-unfiltered", "file": _C, "rule": "R5", "nth": 0, "find": "    state = nnx.state(net, nnx.Param)", "replace": "    state = nnx.state(net)"},
+    {"id": "c16-incumbent-it-after", "file": _C, "rule": "R2", "find": "    if fitness_k <= state.best_fitness:\n        state.best_fitness = fitness_k\n        state.best_fitness_it = state.it\n        state.best_params = population.samples[k]\n\n    state.it += 1",
+     "replace": "    state.it += 1\n    if fitness_k <= state.best_fitness:\n        state.best_fitness = fitness_k\n        state.best_fitness_it = state.it\n        state.best_params = population.samples[k]"},
     {"id": "c16-weights-unnormalised", "file": _C, "rule": "R1", "find": "        weights = weights / jnp.sum(weights)\n", "replace": "        weights = weights / jnp.max(weights)\n"},
     {"id": "c16-weights-log", "file": _C, "rule": "R1", "find": "        weights = math.log(mu + 0.5) - jnp.log1p(jnp.arange(int(mu)))", "replace": "        weights = math.log(mu + 0.5) - jnp.log(jnp.arange(int(mu)) + 2)"},
     {"id": "c16-incumbent-ge", "file": _C, "rule": "R2", "find": "    if fitness_k <= state.best_fitness:", "replace": "    if fitness_k >= state.best_fitness:"},
@@ -258,6 +657,12 @@ MUTANTS = [
     {"id": "c16-cem-bounds-swapped", "file": _X, "rule": "R6", "find": "        samples = cem_sample(mean, var, step_key, n_population, lb, ub)", "replace": "        samples = cem_sample(mean, var, step_key, n_population, ub, lb)"},
 ]
 BENIGN = [
+    {"id": "c16-b-ifexp-cost", "file": _C, "find": "    fitness_k = float(jnp.sum(feedback))\n    if config.maximize:\n        fitness_k = -fitness_k\n", "replace": "    total = float(jnp.sum(feedback))\n    fitness_k = -total if config.maximize else total\n"},
+    {"id": "c16-b-flat-comprehension", "file": _C, "find": "    flat_leaves = list(map(lambda x: x.ravel(), leaves))\n    return jnp.concatenate(flat_leaves, axis=0)", "replace": "    return jnp.concatenate([leaf.reshape(-1) for leaf in leaves])"},
+    {"id": "c16-b-flatten-call", "file": _C, "nth": 1, "find": "    leaves = jax.tree_util.tree_leaves(state)\n    treedef = jax.tree_util.tree_structure(state)\n", "replace": "    leaves, treedef = jax.tree_util.tree_flatten(state)\n"},
+    {"id": "c16-b-cem-kwargs", "file": _X, "find": "        mean, var = cem_update(samples, f, mean, var, n_elite, alpha)", "replace": "        mean, var = cem_update(samples=samples, fitness=fitness_function(samples), mean=mean, var=var, n_elite=n_elite, alpha=alpha)"},
+    {"id": "c16-b-early-keep", "file": _C, "find": "    if fitness_k <= state.best_fitness:\n        state.best_fitness = fitness_k\n        state.best_fitness_it = state.it\n        state.best_params = population.samples[k]\n\n    state.it += 1",
+     "replace": "    it = state.it\n    state.it = it + 1\n    if fitness_k > state.best_fitness:\n        return\n    state.best_fitness = fitness_k\n    state.best_fitness_it = it\n    state.best_params = population.samples[k]"},
     {"id": "c16-b-lt", "file": _C, "find": "    if fitness_k <= state.best_fitness:", "replace": "    if fitness_k < state.best_fitness:"},
     {"id": "c16-b-var-square", "file": _C, "find": "    state.var = state.var * jnp.exp(min((0.6, log_step_size_update))) ** 2", "replace": "    step = jnp.exp(min((0.6, log_step_size_update)))\n    state.var = state.var * step**2"},
     {"id": "c16-b-incumbent-order", "file": _C, "find": "        state.best_fitness = fitness_k\n        state.best_fitness_it = state.it\n", "replace": "        state.best_fitness_it = state.it\n        state.best_fitness = fitness_k\n"},
